@@ -1,3 +1,6 @@
+// ATTIC: both units time out (>20 min each) even on an 11-byte CONSTANT-subframe mono frame with 3 symbolic bytes:
+// the nom combinator plumbing of parser::frame (bits(many_m_n(.. subframe ..))) defeats constant propagation.
+
 // Harnesses for src/component/parser.rs (child module `component::parser::verif_frm`):
 // the frame recogniser `parser::frame` on a CONSTANT-subframe mono frame.
 // C16: the CRC-16 footer is enforced and no truncation makes the recogniser panic.
